@@ -616,6 +616,10 @@ def oracle(geo, blockmap, real, injective, rec):
                 if not close(con.dircos, want, RTOL, CTOL) or ((dv[2] == 0) != (con.dircos == 0)):
                     return bad('horizontal-cosine', 'horizontal connection %r gravity cosine %r, centre-to-centre line gives %r'
                                % ((mp(a), mp(b)), con.dircos, want))
+                # "non-zero beside a truncated surface block": one block cut by its surface, the other a full block
+                sa, sb, top, bot = fr(ca.surface), fr(cb.surface), fr(la.top), fr(la.bottom)
+                if fr(la.centre) == (top + bot) / 2 and ((bot < sa < top and sb >= top) or (bot < sb < top and sa >= top)) and con.dircos == 0:
+                    return bad('truncated-cosine', 'horizontal connection %r beside a truncated surface block has gravity cosine 0' % ((mp(a), mp(b)),))
         else:
             return bad('unknown-connection', 'connection %r is neither vertical nor horizontal' % ((mp(a), mp(b)),))
     return out
